@@ -13,7 +13,10 @@ use serde_json::json;
 pub type Analysis = ParseResult<SourceString>;
 
 pub fn analyze(text: &str) -> Result<Analysis, PanicInfo> {
-    guarded(|| parse_source_string(text, None))
+    note_case(2, text);
+    let r = guarded(|| parse_source_string(text, None));
+    clear_case();
+    r
 }
 
 pub fn clean_parse(text: &str) -> bool {
